@@ -6,7 +6,8 @@ This is a specification of NGINX's configuration-time checks for the directives 
 base, DESIGN §4): tokenisation/nesting (`NGF.Nginx.parse`), include expansion, directive table
 (context, arity, "is duplicate"), duplicate locations / upstreams / variable definitions /
 default servers / map keys, variable references (`ngx_http_script_compile`), upstream references,
-the address and parameters of `listen` (`ngx_parse_url`),
+the address and parameters of `listen` (`ngx_parse_url`), directives and variables of dynamic modules only after their
+`load_module`,
 included and certificate files, njs match keys, split_clients percentages, unix socket path length,
 regular expressions (PCRE subset). It does not mention the generator model. Core Lean only.
 -/
@@ -511,12 +512,33 @@ structure Env where
   httpUpstreams : List String
   streamUpstreams : List String
   splitValues : List (String × List String)   -- http split_clients variable -> values
+  modules : List String := []                 -- arguments of the `load_module` directives of the main context
+
+/-! ### Dynamically loaded modules: their directives and variables exist only after `load_module` -/
+
+/-- the shared object that provides a directive, for the dynamic modules of the NGF image
+(`ngx_otel_module`: `otel_*`; `ngx_http_js_module` / `ngx_stream_js_module`: `js_*`) -/
+def moduleOfDirective (name ctx : String) : Option String :=
+  if name.startsWith "otel_" then some "ngx_otel_module"
+  else if name.startsWith "js_" then some (if moduleOf ctx == "stream" then "ngx_stream_js_module" else "ngx_http_js_module")
+  else none
+
+/-- variables registered by a dynamic module -/
+def moduleOfVariable (name : String) : Option String :=
+  if name.startsWith "otel_" then some "ngx_otel_module" else none
+
+def moduleLoaded (mods : List String) (m : String) : Bool := mods.any fun a => (a.splitOn m).length > 1
 
 def checkScript (env : Env) (ctx dname : String) (arg : List Char) : List Issue :=
   (scriptVars arg).flatMap fun
     | .err why => [⟨"bad-variable-syntax", dname ++ " " ++ str arg ++ ": " ++ why⟩]
     | .name n =>
-      if varDefined env.defs (moduleOf ctx) n then []
+      -- a definition in the file set counts; a built-in of a dynamic module only when that module is loaded
+      let definedHere := env.defs.any fun d => d.1 == moduleOf ctx && d.2.1 == n
+      let modOK := match moduleOfVariable n with
+        | some m => definedHere || moduleLoaded env.modules m
+        | none => true
+      if varDefined env.defs (moduleOf ctx) n && modOK then []
       else [⟨"unknown-variable", dname ++ " " ++ str arg ++ ": unknown \"" ++ n ++ "\" variable"⟩]
 
 /-- what follows `scheme://` in a pass URL -/
@@ -624,6 +646,9 @@ partial def checkBlock (env : Env) (ctx : String) (ds : List Dir) : List Issue :
       | none =>
         if known n then [⟨"bad-context", n ++ " in " ++ ctx⟩] else [⟨"unknown-directive", n ++ " in " ++ ctx⟩]
       | some sp =>
+        let modIss := match moduleOfDirective n ctx with
+          | some m => if moduleLoaded env.modules m then [] else [⟨"module-not-loaded", n ++ " in " ++ ctx ++ ": " ++ m ++ " is not loaded (unknown directive)"⟩]
+          | none => []
         let ar := if d.args.length < sp.min || d.args.length > sp.max then [⟨"arity", n ++ " " ++ " ".intercalate d.argStrings⟩] else []
         let blk := if sp.block != d.block.isSome then [⟨"block-mismatch", n⟩] else []
         let scr := (d.args.zipIdx.flatMap fun (a, i) =>
@@ -646,7 +671,7 @@ partial def checkBlock (env : Env) (ctx : String) (ds : List Dir) : List Issue :
         let inner := match d.block with
           | some ch => checkBlock env (childCtx ctx n) ch
           | none => []
-        ar ++ blk ++ scr ++ kd ++ loc ++ mk ++ inner
+        modIss ++ ar ++ blk ++ scr ++ kd ++ loc ++ mk ++ inner
     -- duplicates inside this block
     let singles := ds.filter fun d => match lookup (str d.name) ctx with | some sp => sp.single | none => false
     let dupDir := match hasDup (singles.map fun d => str d.name) with
@@ -727,7 +752,8 @@ def judge (fs : FileSet) : List Issue :=
       let badNames := (defs.filter fun d => d.2.2 != "capture" && !(d.2.1.toList.all isVarChar && !d.2.1.isEmpty)).map fun d =>
         ⟨"variable-name-not-lexable", d.2.2 ++ " $" ++ d.2.1⟩
       let env : Env := { fs := fs, defs := defs, httpUpstreams := upstreamNames ds "http",
-                         streamUpstreams := upstreamNames ds "stream", splitValues := splitVals ds }
+                         streamUpstreams := upstreamNames ds "stream", splitValues := splitVals ds,
+                         modules := (ds.filter fun d => str d.name == "load_module").flatMap fun d => d.argStrings }
       dedupIssues (inc ++ dupVar ++ badNames ++ checkBlock env "main" ds) []
 
 end NGF.WF
